@@ -63,6 +63,12 @@ class StubEstimator(Estimator):
         return 1.0
 
 
+def indep_relevant(unit, charge):
+    """Relevance of a unit for the occupancy, determined independently of the implementation's own filter:
+    without a filter charge every unit, otherwise the units whose configured charge is non-zero."""
+    return True if charge is None else unit.charge[charge] != 0
+
+
 def reset_all():
     setting.reset()
     FactorTypeMaps._instance = None
@@ -173,7 +179,7 @@ def run_occ(cfg):
         for cn in yield_nodes_on_level_below(root, cfg["cell_level"] - 1):
             u = cn.value
             units.append([list(u.identifier), cid(cells.position_to_cell(u.position)),
-                          bool(occ._is_relevant_unit(u))])
+                          bool(indep_relevant(u, charge))])
     out["units"] = units
     out["init"] = snapshot(occ, cells)
     # the cell-veto handler's walker domain (real initialize): items of the alias tables + keys of the bound table
@@ -211,7 +217,7 @@ def run_occ(cfg):
                 activator.get_trashable_events(prev)
             active_state = sh.extract_active_global_state()
             nodes = [cn for root in active_state for cn in yield_nodes_on_level_below(root, cfg["cell_level"] - 1)]
-            so["update_args"] = [[list(n.value.identifier), bool(occ._is_relevant_unit(n.value)),
+            so["update_args"] = [[list(n.value.identifier), bool(indep_relevant(n.value, charge)),
                                   cid(cells.position_to_cell(n.value.position))] for n in nodes]
             d = activator.get_event_handlers_to_run(active_state, prev)
             by_tag = {t: [] for t in ALL_TAGS}
